@@ -50,7 +50,9 @@ def main():
         env["GRASS_REPO"] = WT
         for pid in a.ids:
             r = sh([os.path.join(VERIF, "check"), pid, "--tier", a.tier], cwd=VERIF, env=env)
-            lines = [l for l in r.stdout.split("\n") if l.startswith(("VIOLATION", "KNOWN-FINDING")) or l.startswith("[")]
+            allv = r.stdout.split("\n")
+            lines = ([l for l in allv if l.startswith("VIOLATION")][:6] + [l for l in allv if l.startswith("[")][-2:]
+                     + [l for l in allv if l.startswith("KNOWN-FINDING")][:4])
             print(f"== {pid}: exit {r.returncode}")
             for l in lines[:12]:
                 print("   ", l[:300])
